@@ -81,13 +81,13 @@ StmtsC09 ==
     \cup {[k |-> "Decay", m |-> m, lines |-> ls] : m \in {"B"}, ls \in SeqsUpTo(LinesQ("B"), MaxLines)}
     \cup {[k |-> "Decay", m |-> m, lines |-> ls] : m \in {"C"}, ls \in SeqsUpTo(LinesQ("C"), MaxLines)}
     \cup {[k |-> "Alias", m |-> "B", src |-> "Br"], [k |-> "Alias", m |-> "C", src |-> "Cr"],
-          [k |-> "Alias", m |-> "x", src |-> "xr"], [k |-> "Alias", m |-> "C", src |-> "Br"]}
+          [k |-> "Alias", m |-> "x", src |-> "B"], [k |-> "Alias", m |-> "C", src |-> "Br"]}
 
 \* the same universe with a fixed file layout (every combination of alias statements and
 \* of a block - possibly absent, possibly empty - for each of A, B, C): deeper than
 \* sequences of MaxStmts arbitrary statements
 AliasQ == <<[k |-> "Alias", m |-> "B", src |-> "Br"], [k |-> "Alias", m |-> "C", src |-> "Cr"],
-            [k |-> "Alias", m |-> "x", src |-> "xr"], [k |-> "Alias", m |-> "C", src |-> "Br"]>>
+            [k |-> "Alias", m |-> "x", src |-> "B"], [k |-> "Alias", m |-> "C", src |-> "Br"]>>
 BlockQ(m) == {<<>>} \cup {<<[k |-> "Decay", m |-> m, lines |-> ls]>> : ls \in SeqsUpTo(LinesQ(m), MaxLines)}
 FilesQ ==
     {SelectSeq(AliasQ, LAMBDA a : a \in A) \o bc \o bb \o ba :
